@@ -79,3 +79,22 @@ Theorem C06_run_pinned_value_held :
            (run_steps OpsR a n es fixed solve (Some v) expi gamma u psi mu l).
 Proof. exact run_pinned_value_held. Qed.
 Print Assumptions C06_run_pinned_value_held.
+
+(* a SEEDED run (fix ba0ecc8) starts from the seed with the configured terminal value imposed on the terminal sites: the initial
+   state holds that value there, is the seed elsewhere, and with the default contact the terminals are zero at every step whatever
+   the seed held on them *)
+Theorem C06_seeded_initial_state :
+  forall (fixed : list nat) (v : RC) (seed : nat -> RC),
+    (forall f, In f fixed -> impose fixed v seed f = v) /\ (forall r, ~ In r fixed -> impose fixed v seed r = seed r).
+Proof. intros fixed v seed. split; [apply impose_fixed|apply impose_free]. Qed.
+Print Assumptions C06_seeded_initial_state.
+
+Theorem C06_run_terminal_zero_seeded :
+  forall (a : nat -> R) (n : nat) (es : list edgeR) (fixed : list nat) (solve : (nat -> R) -> nat -> R)
+         (expi : R -> RC) (gamma u : R),
+    NoDup fixed -> forall l seed mu,
+    Forall (fun x : option (step_out OpsR) =>
+              match x with Some o => forall f, In f fixed -> so_psi _ o f = (0, 0) | None => True end)
+           (run_steps OpsR a n es fixed solve None expi gamma u (impose fixed (0, 0) seed) mu l).
+Proof. exact run_terminal_zero_seeded. Qed.
+Print Assumptions C06_run_terminal_zero_seeded.
